@@ -3,9 +3,9 @@ EXTENDS CoCsdoGen
 Sizes == {1, 4, 5, 7, 8, 14, 15}
 SizesQ == {1, 4, 5, 8, 14, 15}
 LC == {<<"up", z, t>> : z \in Sizes, t \in {2, 3}} \cup {<<"down", z, t, 10>> : z \in Sizes, t \in {2, 3}} \cup {<<"up", 4, 0>>, <<"down", 8, 0, 10>>}
-      \cup {<<"srv", k>> : k \in {"ok", "abort", "abortx", "toggle", "cmd", "size", "mux"}} \cup {<<"tick">>}
+      \cup {<<"srv", k>> : k \in {"ok", "abort", "abortx", "toggle", "cmd", "size", "mux", "junk"}} \cup {<<"tick">>}
 LCQ == {<<"up", z, 2>> : z \in SizesQ} \cup {<<"down", z, 3, 10>> : z \in SizesQ} \cup {<<"up", 8, 3>>}
-      \cup {<<"srv", k>> : k \in {"ok", "abort", "toggle", "cmd", "size"}} \cup {<<"tick">>}
+      \cup {<<"srv", k>> : k \in {"ok", "abort", "abortx", "toggle", "cmd", "size", "junk"}} \cup {<<"tick">>}
 PC == << <<"state">>, <<"pool">>, <<"tick">>, <<"tick">>, <<"tick">>, <<"tick">>, <<"state">>, <<"pool">>, <<"ubuf">>,
          <<"up", 4, 5>>, <<"pool">>, <<"tick">>, <<"tick">>, <<"tick">>, <<"tick">>, <<"srv", "ok">>, <<"pool">>, <<"ubuf">>, <<"down", 5, 0, 40>>, <<"srv", "ok">>, <<"srv", "ok">>, <<"state">>, <<"pool">> >>
 LC20 == {<<"up", 4, 3>>, <<"up", 8, 2>>, <<"down", 8, 3, 10>>, <<"srv", "ok">>, <<"srv", "abort">>, <<"tick">>, <<"reset", 130>>, <<"reset", 129>>}
